@@ -1041,6 +1041,9 @@ def enum_tmp(tier):
             yield _mk({'mode': 'auto', 'installed': {name: 'ok'}}, f, ENUM_SHAPES[0], i)
             yield _mk({'mode': 'named', 'solver': name, 'installed': {name: 'noexec'}}, f, ENUM_SHAPES[0], i)
             yield _mk({'mode': 'named', 'solver': name, 'installed': {}}, f, ENUM_SHAPES[0], i)
+    # the calls that end in ValueError (unknown 'sameas' name) leave nothing behind either
+    yield _mk({'mode': 'badsameas', 'solver': 'nosuchsolver', 'exe': 'mysolver', 'installed': {'mysolver': 'ok'}}, ENUM_FORMULAS[3], ENUM_SHAPES[0], i)
+    yield _mk({'mode': 'badsameas', 'solver': 'nosuchsolver', 'exe': 'lingeling', 'installed': {'lingeling': 'ok'}}, ENUM_FORMULAS[1], ENUM_SHAPES[0], i)
 
 
 # -- overlapping calls: who calls what
